@@ -398,6 +398,11 @@ func fileget(h FileReader, r *Request, pkt requestPacket, alloc *allocator, orde
 		return statusFromError(pkt.id(), errors.New("unexpected read packet"))
 	}
 
+	if _, ok := pkt.(*sshFxpReadPacket); !ok {
+		// a handle opened for reading serves READ requests only
+		return statusFromError(pkt.id(), errors.New("unexpected write packet"))
+	}
+
 	data, offset, _ := packetData(pkt, alloc, orderID, maxTxPacket)
 
 	n, err := rd.ReadAt(data, offset)
@@ -418,6 +423,11 @@ func fileput(h FileWriter, r *Request, pkt requestPacket, alloc *allocator, orde
 	wr := r.getWriterAt()
 	if wr == nil {
 		return statusFromError(pkt.id(), errors.New("unexpected write packet"))
+	}
+
+	if _, ok := pkt.(*sshFxpWritePacket); !ok {
+		// a handle opened for writing serves WRITE requests only: the buffer of a READ is not data to write
+		return statusFromError(pkt.id(), errors.New("unexpected read packet"))
 	}
 
 	data, offset, _ := packetData(pkt, alloc, orderID, maxTxPacket)
